@@ -180,6 +180,9 @@ type destinationTripper struct {
 	keepAlives      bool
 	wellKnownSRV    bool
 	dialer          *net.Dialer
+	// The transport for .well-known lookups when the dialer is limited to CIDR ranges,
+	// nil otherwise.
+	wellKnownTransport http.RoundTripper
 }
 
 func newDestinationTripper(skipVerify bool, dnsCache *DNSCache, keepAlives, wellKnownSRV bool, allowCIDRs []string, denyCIDRs []string) *destinationTripper {
@@ -190,6 +193,19 @@ func newDestinationTripper(skipVerify bool, dnsCache *DNSCache, keepAlives, well
 		keepAlives:   keepAlives,
 		wellKnownSRV: wellKnownSRV,
 		dialer:       newDestinationTripperDialer(allowCIDRs, denyCIDRs),
+	}
+	if len(allowCIDRs) > 0 || len(denyCIDRs) > 0 {
+		// The .well-known lookup is an outbound connection like any other, so it has to go
+		// through the limited dialer too rather than through http.DefaultTransport.
+		transport := &http.Transport{
+			DisableKeepAlives: true,
+			DialContext:       tripper.dialer.DialContext,
+			Proxy:             http.ProxyFromEnvironment,
+		}
+		if dnsCache != nil {
+			transport.DialContext = dnsCache.DialContext
+		}
+		tripper.wellKnownTransport = transport
 	}
 	time.AfterFunc(destinationTripperReapInterval, tripper.reaper)
 	return tripper
@@ -347,7 +363,7 @@ retryResolution:
 		// If the cache returned nothing then we'll have no results here,
 		// so go and hit the network.
 		if len(resolutionResults) == 0 {
-			resolutionResults, err = ResolveServer(r.Context(), serverName)
+			resolutionResults, err = resolveServer(r.Context(), serverName, true, f.wellKnownTransport)
 			if err != nil {
 				return nil, err
 			}
